@@ -747,3 +747,75 @@ Proof.
       * right. right. rewrite Hst in Hin. destruct Hin as [<-|[]].
         rewrite (es_open_id chunk m1 _ _ HR1). exact HR1.
 Qed.
+
+(* ---------- rebuild: the new event map, at the byte level (C16) ---------- *)
+Lemma appends_events es : forall lg E off e, In (off, e) (fst (appends lg E es)) -> In (off, e) lg \/ In e es.
+Proof.
+  induction es as [|x r IH]; intros lg E off e Hin; cbn [appends fst] in Hin; [left; exact Hin|].
+  destruct (IH _ _ _ _ Hin) as [[[= <- <-]|H]|H]; [right; left; reflexivity | left; exact H | right; right; exact H].
+Qed.
+
+Definition log_events_wf (s : db) : Prop := forall off e, In (off, e) (log s) -> wfe e.
+
+Lemma LSb_events_wf chunk B s : LSb chunk B s -> log_events_wf s.
+Proof.
+  intros (es & Hwf & _ & E) off e Hin.
+  assert (Hl : log s = fst (appends [] HEADER es)) by (rewrite <- E; reflexivity).
+  rewrite Hl in Hin. destruct (appends_events es [] HEADER off e Hin) as [[]|H].
+  rewrite Forall_forall in Hwf. apply Hwf. exact H.
+Qed.
+
+Lemma rebuild_events_appends old entries : forall news n es0,
+  log_events_wf old -> (log news, log_end news) = appends [] HEADER es0 -> Forall wfe es0 ->
+  rebuild_events old news entries = Ok n ->
+  exists es, Forall wfe es /\ (log n, log_end n) = appends [] HEADER es.
+Proof.
+  induction entries as [|[k off] r IH]; intros news n es0 Hold E0 W0; cbn [rebuild_events].
+  - intros [= <-]. exists es0. auto.
+  - destruct (get_event_by_offset old off) as [e| | |] eqn:G; cbn [bind]; try discriminate.
+    assert (We : wfe e).
+    { unfold get_event_by_offset in G. destruct (log_end old <=? off); [discriminate|].
+      destruct (log_find (log old) off) as [x|] eqn:F; [|discriminate]. injection G as ->.
+      apply (Hold off). apply log_find_in. exact F. }
+    unfold log_append. intros H.
+    eapply (IH _ n (es0 ++ [e])); [exact Hold | | | exact H].
+    + cbn [with_committed log log_end]. rewrite appends_snoc, <- E0. reflexivity.
+    + apply Forall_app. split; [exact W0 | constructor; [exact We | constructor]].
+Qed.
+
+(* the event map a rebuild writes is again a sequence of appends of well-formed events: the byte-level file exists,
+   refines the rebuilt store, and keeps doing so for every history that continues with the rebuilt store *)
+Theorem rebuild_bytes_refine chunk names ops s' ops2 :
+  8 <= chunk -> chunk mod 8 = 0 ->
+  Forall wfe (ops_events ops) -> Forall wfe (ops_events ops2) ->
+  rebuild (c_run ops (db_init names)) = Ok s' ->
+  exists es, Forall wfe es /\ (log s', log_end s') = appends [] HEADER es /\
+    (chunk + total_size chunk es + total_size chunk (ops_events ops2) < B64 ->
+     let s2 := c_run ops2 s' in
+     exists m, bytes_of_log chunk (log s2) = Some m /\ Rdb m s2
+       /\ (forall off e, get_event_by_offset s2 off = Ok e -> es_get m off = Ok (enc_event e))
+       /\ es_end m = log_end s2).
+Proof.
+  intros Hc Hcm Hwf Hwf2 Hr.
+  set (s := c_run ops (db_init names)) in *.
+  assert (HL : LSb chunk (0 + total_size chunk (ops_events ops)) s).
+  { apply c_run_LSb; [exact Hwf|]. exists []. cbn [total_size appends]. auto using Forall_nil, N.le_refl. }
+  pose proof (LSb_events_wf _ _ _ HL) as Hold.
+  unfold rebuild in Hr.
+  destruct (rebuild_events s _ (t_iter (t_i (committed s)))) as [n1| | |] eqn:E1; cbn [bind] in Hr; try discriminate.
+  destruct (rebuild_naddrs _ _) as [tb2| | |]; cbn [bind] in Hr; try discriminate.
+  injection Hr as <-.
+  assert (Hx : exists es, Forall wfe es /\ (log n1, log_end n1) = appends [] HEADER es).
+  { eapply (rebuild_events_appends s _ _ n1 []); [exact Hold | | constructor | exact E1]. reflexivity. }
+  destruct Hx as (es & Wes & Ees).
+  exists es. refine (conj Wes (conj Ees _)).
+  intros Hroom s2.
+  assert (HL2 : LSb chunk (total_size chunk es + total_size chunk (ops_events ops2)) s2).
+  { apply c_run_LSb; [exact Hwf2|]. exists es. cbn [with_committed log log_end]. auto using N.le_refl. }
+  destruct HL2 as (es2 & H1 & H2 & H3).
+  destruct (bytes_of_log_total chunk es2 Hc Hcm H1) as (m & Hb & HR); [lia|].
+  rewrite <- H3 in Hb, HR. cbn [fst snd] in Hb, HR.
+  exists m. refine (conj Hb (conj HR (conj _ _))).
+  - intros off e Hg. eapply es_get_refines_db; [exact HR | exact Hg].
+  - apply (R_end _ _ _ HR).
+Qed.
